@@ -55,6 +55,9 @@ const (
 
 	cacheFileMagic   = "P2CC"
 	cacheFileVersion = 1
+
+	// stream id in the header of records that were invalidated or replaced
+	invalidStreamID = ^uint64(0)
 )
 
 func readVarInt(r io.ByteReader) (uint64, int, error) {
@@ -276,6 +279,15 @@ func NewCacheFile(cachePath string) (*cacheFile, error) {
 				break
 			}
 			return nil, fmt.Errorf("failed to skip stream data: %w", err)
+		}
+		if streamSection.StreamID == invalidStreamID {
+			// This record was invalidated or replaced, it's free space.
+			if res.freeSize == 0 || res.freeStart > res.fileSize {
+				res.freeStart = res.fileSize
+			}
+			res.freeSize += streamHeaderSize + int64(streamSize)
+			res.fileSize += streamHeaderSize + int64(streamSize)
+			continue
 		}
 		res.fileSize += streamHeaderSize
 
@@ -710,6 +722,7 @@ func (cachefile *cacheFile) setData(streamID uint64, streamTime time.Time, conve
 	}
 
 	// Remember where to look for this stream.
+	oldInfo, replaced := cachefile.streamInfos[streamID]
 	cachefile.streamInfos[streamID] = streamInfo{
 		offset: cachefile.fileSize + streamHeaderSize,
 		size:   streamSize,
@@ -720,7 +733,26 @@ func (cachefile *cacheFile) setData(streamID uint64, streamTime time.Time, conve
 	}
 	cachefile.fileSize += streamHeaderSize + int64(streamSize)
 
+	if replaced {
+		// The previous record of this stream is dead now.
+		cachefile.freeStream(oldInfo)
+	}
+
 	return nil
+}
+
+// freeStream marks the record of a stream as deleted in the file, so that it
+// stays deleted when the file is loaded again, and accounts its space as free.
+func (cachefile *cacheFile) freeStream(info streamInfo) {
+	header := [streamHeaderSize]byte{}
+	binary.LittleEndian.PutUint64(header[:], invalidStreamID)
+	if _, err := cachefile.file.WriteAt(header[:], info.offset-streamHeaderSize); err != nil {
+		log.Printf("Failed to mark stream as deleted in converter cache file(%q): %v\n", cachefile.cachePath, err)
+	}
+	cachefile.freeSize += int64(info.size) + streamHeaderSize
+	if cachefile.freeStart > info.offset-streamHeaderSize {
+		cachefile.freeStart = info.offset - streamHeaderSize
+	}
 }
 
 func (cachefile *cacheFile) InvalidateChangedStreams(streams *bitmask.LongBitmask) bitmask.LongBitmask {
@@ -734,10 +766,7 @@ func (cachefile *cacheFile) InvalidateChangedStreams(streams *bitmask.LongBitmas
 		// delete the stream from the in-memory index
 		// it will be re-added when the stream is converted again
 		if info, ok := cachefile.streamInfos[uint64(streamID)]; ok {
-			cachefile.freeSize += int64(info.size) + streamHeaderSize
-			if cachefile.freeStart > info.offset-streamHeaderSize {
-				cachefile.freeStart = info.offset - streamHeaderSize
-			}
+			cachefile.freeStream(info)
 			delete(cachefile.streamInfos, uint64(streamID))
 			invalidatedStreams.Set(streamID)
 		}
